@@ -136,6 +136,9 @@ def summarise_action(fi, fsm_param=None):
                         ops.append(['PUSH', 'sym', n.lineno])
                     elif isinstance(a, ast.Name):
                         ops.append(['PUSH', 'var:' + a.id, n.lineno])
+                    elif isinstance(a, ast.BinOp) and isinstance(a.op, ast.Add) and isinstance(a.left, ast.Name) and a.left.id in popped \
+                            and isinstance(a.right, ast.Attribute) and a.right.attr == 'input_symbol':
+                        ops.append(['PUSH', 'concat', n.lineno])          # memory.append(ns + fsm.input_symbol): the number continued in place
                     else:
                         ops.append(['PUSH', 'other', n.lineno])
                 else:
@@ -169,6 +172,47 @@ def summarise_action(fi, fsm_param=None):
             else:
                 op[1] = 'other'
     return [tuple(o) for o in ops]
+
+
+def early_exit_imbalance(fi, fsm_param=None):
+    """An action is summarised as ONE sequence of stack operations.  A `return` / `raise` under a condition that leaves the action between
+    two of them makes the effect depend on the condition: list of (lineno, net effect of the early path, net effect of the full path) for
+    every conditional exit after which stack operations still follow in source order.  The next state of the automaton is fixed by the
+    transition table, so an action whose net effect on the parameter stack differs between its paths leaves the stack out of step."""
+    p = fsm_param or fi.params[-1]
+
+    def is_mem(e):
+        return isinstance(e, ast.Attribute) and e.attr == 'memory' and isinstance(e.value, ast.Name) and e.value.id == p
+    events = []          # ('op', +1 / -1 / 'reset') and ('exit', lineno) in source order
+
+    def visit(node, in_branch):
+        for n in ast.iter_child_nodes(node):
+            if isinstance(n, (ast.If, ast.While, ast.For, ast.Try)):
+                visit(n, True)
+                continue
+            if isinstance(n, (ast.Return, ast.Raise)) and in_branch:
+                events.append(('exit', n.lineno))
+            visit(n, in_branch)
+            if isinstance(n, ast.Call) and isinstance(n.func, ast.Attribute) and is_mem(n.func.value):
+                if n.func.attr == 'pop':
+                    events.append(('op', -1))
+                elif n.func.attr == 'append':
+                    events.append(('op', +1))
+            elif isinstance(n, ast.Assign) and any(is_mem(t) for t in n.targets):
+                events.append(('op', 'reset'))
+    visit(fi.node, False)
+
+    def net(evs):
+        v = 0
+        for k, x in evs:
+            if k == 'op':
+                v = 0 if x == 'reset' else v + x
+        return v
+    out = []
+    for i, (k, x) in enumerate(events):
+        if k == 'exit' and any(k2 == 'op' for k2, _ in events[i + 1:]):
+            out.append((x, net(events[:i]), net(events)))
+    return out
 
 
 def is_reset_to_screen(ops):
